@@ -526,6 +526,10 @@ def judge_case(ctx, case, R, M):
     ctx.judge(sub, _status(R["sym"]), S_status, m_status, what="to_symbolic_model converts / raises")
     if M is not None and R["sym"] != M["sym"] and _status(R["sym"]) == m_status == "err":
         ctx.add_drift(sub, R["sym"], M["sym"], "exception raised by to_symbolic_model")
+    if M is not None and M["wf"] and M["convertible"]:
+        ctx.hist["lean_convertible"] = ctx.hist.get("lean_convertible", 0) + 1
+        if m_status != "ok" or S_status != "ok":
+            ctx.violation(sub, {"M": M["sym"], "S": S_status}, "SContent.convertible holds but the conversion fails")
     # 2. the simulator: a Jacobian exactly when the conversion works, a warning otherwise
     present = R.get("jacfn_present")
     if not isinstance(present, bool):
